@@ -21,6 +21,108 @@ def func_with_complexity(name, k):
     return "\n".join(lines) + "\n"
 
 
+def py_mccabe(src):
+    """{(name, first line of the def): f(dead ranges) -> McCabe count by the property's definition} computed from CPython's OWN parse of the source — an oracle
+    that does not go through pyscn's parser: if / elif tests, for / while loops, except handlers, and the for / if clauses of statement-level comprehensions
+    (the value of an assignment, return or expression statement, with or without redundant parentheses); nested defs count for themselves, a nested class body runs inline."""
+    import ast
+    tree = ast.parse(src)
+    out = {}
+
+    def count(fn, dead):
+        n = 1
+
+        def isdead(node):
+            return any(a <= node.lineno <= b for a, b in dead)
+
+        def comps(v):
+            k = 0
+            if isinstance(v, (ast.ListComp, ast.SetComp, ast.DictComp, ast.GeneratorExp)):
+                for g in v.generators:
+                    k += 1 + len(g.ifs)
+            return k
+
+        def walk(stmts):
+            nonlocal n
+            for st in stmts:
+                if isinstance(st, (ast.FunctionDef, ast.AsyncFunctionDef)):
+                    continue
+                if isdead(st):
+                    continue
+                if isinstance(st, ast.ClassDef):
+                    walk(st.body)          # a class body runs inline, as part of the enclosing function (its methods count for themselves)
+                    continue
+                if isinstance(st, ast.If):
+                    n += 1
+                    walk(st.body)
+                    walk(st.orelse)
+                elif isinstance(st, (ast.For, ast.AsyncFor, ast.While)):
+                    n += 1
+                    walk(st.body)
+                    walk(st.orelse)
+                elif isinstance(st, (ast.Try, getattr(ast, "TryStar", ast.Try))):
+                    walk(st.body)
+                    for h in st.handlers:
+                        if not isdead(h):
+                            n += 1
+                            walk(h.body)
+                    walk(st.orelse)
+                    walk(st.finalbody)
+                elif isinstance(st, (ast.With, ast.AsyncWith)):
+                    walk(st.body)
+                elif isinstance(st, (ast.Assign, ast.AnnAssign, ast.AugAssign, ast.Return, ast.Expr)):
+                    if getattr(st, "value", None) is not None:
+                        n += comps(st.value)
+        walk(fn.body)
+        return n
+    for node in ast.walk(tree):
+        if isinstance(node, (ast.FunctionDef, ast.AsyncFunctionDef)):
+            out[(node.name, node.lineno)] = (lambda dead, fn=node: count(fn, dead))
+    return out
+
+
+# comprehension / layout shapes outside the skeleton generator: (tag, source of function `f`, expected complexity)
+COMP_SHAPES = [
+    ("comp/one_for_one_if", "def f(xs):\n    y = [x for x in xs if x]\n    return y\n", 3),
+    ("comp/two_ifs_on_one_for", "def f(xs, p, q):\n    y = [x for x in xs if p if q]\n    return y\n", 4),
+    ("comp/three_ifs_on_one_for", "def f(xs, p, q, r):\n    y = [x for x in xs if p if q if r]\n    return y\n", 5),
+    ("comp/two_fors_ifs_on_each", "def f(xs, ys):\n    y = {x: z for x in xs if x for z in ys if z}\n    return y\n", 5),
+    ("comp/parenthesised_assign", "def f(xs):\n    y = ([x for x in xs if x])\n    return y\n", 3),
+    ("comp/parenthesised_return", "def f(xs):\n    return ([x for x in xs if x])\n", 3),
+    ("comp/multi_line", "def f(xs):\n    y = [\n        x\n        for x in xs\n        if x\n    ]\n    return y\n", 3),
+    ("comp/chained_assign", "def f(xs):\n    a = b = [x for x in xs if x]\n    return a\n", 3),
+    ("comp/annotated_assign", "def f(xs):\n    a: list = [x for x in xs if x]\n    return a\n", 3),
+    ("comp/augmented_assign", "def f(xs, a):\n    a += [x for x in xs if x]\n    return a\n", 3),
+    ("comp/expression_statement", "def f(xs):\n    [print(x) for x in xs if x]\n    return 1\n", 3),
+    ("comp/generator_return", "def f(xs):\n    return (x for x in xs if x)\n", 3),
+    ("comp/set_return", "def f(xs):\n    return {x for x in xs}\n", 2),
+    ("comp/attribute_target", "def f(self, xs):\n    self.items = [x for x in xs if x]\n    return self\n", 3),
+    ("comp/tuple_target", "def f(xs):\n    a, b = [x for x in xs][:2]\n    return a\n", 1),
+    ("layout/if_parenthesised_test", "def f(a, b):\n    if (a and\n            b):\n        return 1\n    return 2\n", 2),
+    ("layout/backslash_continuation", "def f(a, b):\n    if a and \\\n            b:\n        return 1\n    return 2\n", 2),
+    ("layout/one_line_if", "def f(a):\n    if a: return 1\n    return 2\n", 2),
+    ("layout/one_line_loops", "def f(a):\n    for i in a: a += i\n    while a: a -= 1\n    return a\n", 3),
+    ("layout/semicolons", "def f(a):\n    x = 1; y = 2\n    if a: x = 3; y = 4\n    return x + y\n", 2),
+    ("layout/decorated_async", "import functools\n\n\n@functools.wraps(print)\nasync def f(a):\n    async for i in a:\n        if i:\n            return i\n    return None\n", 3),
+    ("layout/docstring_and_comments", "def f(a):\n    \"\"\"if while for except\"\"\"\n    # if a: pass\n    if a:  # elif\n        return 1\n    return 2\n", 2),
+    ("layout/lambda_and_ternary_not_counted", "def f(a):\n    g = lambda v: v if v else 0\n    return g(a) if a else None\n", 1),
+    ("layout/except_tuple_and_bare", "def f(a):\n    try:\n        a()\n    except (KeyError, OSError) as e:\n        return 1\n    except:\n        return 2\n    return 3\n", 3),
+    ("layout/while_else_for_else", "def f(a):\n    while a:\n        a -= 1\n    else:\n        a = 5\n    for i in range(a):\n        pass\n    else:\n        a = 6\n    return a\n", 3),
+    ("layout/elif_chain_5", "def f(a):\n    if a == 1:\n        return 1\n    elif a == 2:\n        return 2\n    elif a == 3:\n        return 3\n    elif a == 4:\n        return 4\n    elif a == 5:\n        return 5\n    else:\n        return 0\n", 6),
+    ("nest/inner_def_not_counted_in_outer", "def f(a):\n    def inner(b):\n        if b:\n            return 1\n        return 2\n    if a:\n        return inner\n    return None\n", 2),
+    ("nest/def_in_try_finally", "def f(a):\n    try:\n        def inner(b):\n            if b:\n                return 1\n            return 2\n    except KeyError:\n        a = 0\n    if a:\n        return 1\n    return inner\n", 3),
+    ("nest/def_in_try_finally_body", "def outer(a):\n    try:\n        def f(b):\n            if b:\n                return 1\n            return 2\n    finally:\n        if a:\n            a = 0\n        for i in range(a):\n            pass\n    while a:\n        a -= 1\n    return f\n", 2),
+    ("nest/def_in_loop_in_try_finally", "def outer(a):\n    try:\n        for i in range(a):\n            def f(b):\n                for j in b:\n                    if j:\n                        return j\n                return 0\n            if f(a):\n                break\n    finally:\n        if a:\n            a = 0\n    if a:\n        return 1\n    return 0\n", 3),
+    ("nest/method_in_try_finally", "def outer(a):\n    try:\n        class K:\n            def f(self, b):\n                try:\n                    return b()\n                except KeyError:\n                    return 0\n                finally:\n                    b = None\n    finally:\n        if a:\n            a = 0\n        while a:\n            a -= 1\n    return K\n", 2),
+    ("nest/def_in_module_try_finally", "import os\ntry:\n    def f(b):\n        if b:\n            return 1\n        return 2\nfinally:\n    if os.sep:\n        X = 0\n    for i in range(3):\n        pass\nif os.sep:\n    Y = 1\n", 2),
+    ("nest/def_in_finally_and_handler", "def outer(a):\n    try:\n        a()\n    except KeyError:\n        def g(b):\n            return b\n    finally:\n        def f(b):\n            if b:\n                return 1\n            return 2\n        if a:\n            a = 0\n    if a:\n        return f\n    return None\n", 2),
+    ("nest/def_in_with_in_loop", "def outer(a):\n    for i in a:\n        with open(i) as fh:\n            def f(b):\n                while b:\n                    b -= 1\n                    if b == 3:\n                        break\n                return b\n            if fh:\n                continue\n    return f\n", 3),
+    ("literal/while_true", "def f(a):\n    while True:\n        a -= 1\n        if a < 0:\n            break\n    return a\n", 3),
+    ("literal/while_one", "def f(a):\n    while 1:\n        a -= 1\n        if a < 0:\n            break\n    return a\n", 3),
+    ("literal/if_constants", "def f(a):\n    if True:\n        a = 1\n    if 0:\n        a = 2\n    if None:\n        a = 3\n    return a\n", 4),
+]
+
+
 def run(tier, seed, replay=None):
     res = C.Result(PID, tier, seed)
     rng = random.Random(seed * 1000003 + 3)
@@ -104,6 +206,46 @@ def run(tier, seed, replay=None):
             i, variant = owner[si]
             if fn["name"] == "f" or fn["name"].startswith("f."):
                 per_skel.setdefault((i, fn["name"]), {})[variant] = fn["complexity"]
+    # ---- second oracle: the property's count from CPython's own parse of the same source (does not go through pyscn's parser) ----------------------------
+    hist["py_oracle_functions"] = 0
+    for si, r in enumerate(an):
+        if "error" in r:
+            continue
+        try:
+            ref = py_mccabe(srcs[si])
+        except SyntaxError:
+            continue
+        for fn in r["funcs"]:
+            short = fn["name"].split(".")[-1]
+            f_ = ref.get((short, fn["start"]))
+            if f_ is None or fn["name"] == "__main__":
+                continue
+            want = f_([(x["start"], x["end"]) for x in fn["findings"]])
+            hist["py_oracle_functions"] += 1
+            if fn["complexity"] != want:
+                res.violation("C03: %s has complexity %d; counted on CPython's parse of the same source (decisions on lines pyscn reports dead excluded) it is %d" % (fn["name"], fn["complexity"], want),
+                              {"signature": {"kind": "py-oracle"}, "skeleton": funcs[owner[si][0]], "source": srcs[si], "function": fn["name"], "reported": fn["complexity"], "expected": want})
+    # ---- hand-written comprehension / layout / literal shapes ---------------------------------------------------------------------------------------------
+    shp = cfgeng.analyse([src for _, src, _ in COMP_SHAPES])
+    hist["shape_cases"] = len(COMP_SHAPES)
+    for (tag, src, want), r in zip(COMP_SHAPES, shp):
+        got = None if "error" in r else next((fn["complexity"] for fn in r["funcs"] if fn["name"] == "f" or fn["name"].endswith(".f")), None)
+        ref = py_mccabe(src)
+        pyw = next((v([]) for (nm, ln), v in ref.items() if nm == "f"), None)
+        if pyw != want:
+            res.violation("generator error: shape %s: hand-written expectation %d, CPython-parse oracle %s" % (tag, want, pyw), {"source": src})
+            continue
+        hist["functions"] += 1
+        if want > 1:
+            nontrivial.add(("shape", tag))
+        if got != want:
+            sig = {"kind": "shape", "case": tag}
+            k = C.classify(PID, sig)
+            msg = "C03 shape %s: f has complexity %s, 1 + decision count is %d" % (tag, got, want)
+            if k:
+                res.known_finding(k, "(%s)" % msg)
+            else:
+                res.violation(msg, {"signature": sig, "source": src, "reported": got, "expected": want})
     for (i, name), vs in per_skel.items():
         if len(set(vs.values())) > 1:
             res.violation("C03 independence: %s of one skeleton gets complexities %s under (plain, cosmetic noise, noise + unrelated definitions)" % (name, vs),
